@@ -179,4 +179,10 @@ func init() {
 		What:    "real Parse + CreateFunctions on skeleton docs (package comment containing a ':skip' line, commented declarations around the interface, interface/method doc comments from menus mixing text, blank and notation lines, methods without doc comment): every function's doc = the non-notation lines of ITS method's own doc comment in order; notations apply where they stand only; the package comment and the comments of other declarations stay in the syntax tree, the package doc stays attached",
 		Bounds:  "skeleton docs; 4x5x3 doc-comment menus", Assumes: []string{aT, aSlots}})
 	reg(&HarnessSpec{Prop: "C09", Name: "C11DocForwarding", What: "notations of the package comment or of an enclosing declaration never reach a method without doc comment (see C11DocForwarding)", Bounds: "skeleton docs", Assumes: []string{aT, aSlots}})
+
+	for _, pr := range []string{"C06", "C03", "C01"} {
+		reg(&HarnessSpec{Prop: pr, Name: "C06CrossConv",
+			What:   "real front half on skeleton xconv: a :conv naming a function generated from ANOTHER converter interface of the file (whose name sorts after the referring one) and one generated from the same interface are resolved, used and type-check; the file is accepted with one function per method",
+			Bounds: "skeleton xconv, 2 slot choices", Assumes: []string{aT, aSlots}})
+	}
 }
